@@ -202,6 +202,13 @@ impl Property for C09 {
                 format!("verify({}, signers) after {:?} wire trip: {}", n, spec.wire, e), "Ok");
             return o;
         }
+        // the same keys handed over through an iterator that does not know its length in advance (the parameter is any
+        // IntoIterator of key references)
+        if let Err(e) = back.verify(n, pubs.iter().filter(|_| true)) {
+            o.fail(format!("C09/verify/own-signature-rejected-through-lazy-iterator/{:?}", spec.path),
+                format!("verify({}, signers.iter().filter(..)) after {:?} wire trip: {}", n, spec.wire, e), "Ok, as with a slice iterator");
+            return o;
+        }
         if back.metadata != meta {
             o.class("metadata-changed-in-roundtrip");
         }
